@@ -387,3 +387,80 @@ func LargeCFG(r *rand.Rand) *PGrammar {
 	}
 	return pg
 }
+
+// LeftRecCFG generates grammars whose input nonterminal is (indirectly)
+// left-recursive and is also used in nested contexts, so that the state reached
+// after the input nonterminal from the entry state has a twin in other contexts.
+func LeftRecCFG(r *rand.Rand) *PGrammar {
+	g := &cfg.Grammar{}
+	nT := 5 + r.Intn(6)
+	for i := 0; i < nT; i++ {
+		g.Terms = append(g.Terms, TermName(i))
+	}
+	cyc := 1 + r.Intn(3) // nonterminals on the left-recursive cycle: C0 (input) -> C1 -> ... -> C0
+	for i := 0; i < cyc; i++ {
+		g.Nonterms = append(g.Nonterms, fmt.Sprintf("C%d", i))
+	}
+	extra := r.Intn(3)
+	for i := 0; i < extra; i++ {
+		g.Nonterms = append(g.Nonterms, fmt.Sprintf("X%d", i))
+	}
+	t := func(i int) cfg.Sym { return cfg.Sym{T: true, I: i % nT} }
+	nt := func(i int) cfg.Sym { return cfg.Sym{I: i} }
+	rule := func(lhs int, rhs ...cfg.Sym) { g.Rules = append(g.Rules, cfg.Rule{LHS: lhs, RHS: rhs}) }
+	next := 0
+	fresh := func() cfg.Sym { next++; return t(next - 1) }
+	base := fresh()
+	// the cycle: Ci : C(i+1) tail... ; the last one refers back to C0 with several distinct continuations
+	for i := 0; i < cyc; i++ {
+		succ := (i + 1) % cyc
+		n := 1
+		if succ == 0 {
+			n = 1 + r.Intn(7) // number of transitions out of the state after C0
+		}
+		for k := 0; k < n; k++ {
+			rhs := []cfg.Sym{nt(succ), fresh()}
+			for j := r.Intn(3); j > 0; j-- {
+				if extra > 0 && r.Intn(3) == 0 {
+					rhs = append(rhs, nt(cyc+r.Intn(extra)))
+				} else {
+					rhs = append(rhs, t(r.Intn(nT)))
+				}
+			}
+			rule(i, rhs...)
+		}
+	}
+	// base case and nested uses of the cycle nonterminals behind brackets
+	rule(cyc-1, base)
+	for k := 1 + r.Intn(3); k > 0; k-- {
+		open, close := fresh(), fresh()
+		inner := r.Intn(cyc)
+		rule(r.Intn(cyc), open, nt(inner), close)
+	}
+	if r.Intn(3) == 0 {
+		// nullable nonterminal right after the recursive reference (what mid-rule actions become)
+		g.Nonterms = append(g.Nonterms, "E")
+		e := len(g.Nonterms) - 1
+		rule(e)
+		rule(0, nt(0), nt(e), fresh())
+	}
+	for i := 0; i < extra; i++ {
+		rule(cyc+i, fresh())
+		if r.Intn(2) == 0 {
+			rule(cyc+i, fresh(), nt(r.Intn(cyc)), fresh())
+		}
+	}
+	dedupRules(g)
+	sortRules(g)
+	g.Prepare()
+	pg := &PGrammar{CFG: g, Markers: map[[2]int][]string{}, Actions: map[[2]int]string{}}
+	pg.Inputs = []Input{{NT: 0, NoEoi: r.Intn(5) == 0}}
+	if cyc > 1 && r.Intn(2) == 0 {
+		pg.Inputs = append(pg.Inputs, Input{NT: 1, NoEoi: r.Intn(4) == 0})
+	}
+	pg.coverUnreachable(r)
+	if r.Intn(3) == 0 {
+		pg.decorate(r)
+	}
+	return pg
+}
